@@ -424,7 +424,70 @@ func BVBin(op string, a, b *Term) *Term {
 			a, b = b, a
 		}
 	}
-	return app(op, a.Sort, a, b)
+	t := app(op, a.Sort, a, b)
+	if op == "bvor" {
+		if x := reassemble(t); x != nil {
+			return x
+		}
+	}
+	return t
+}
+
+// reassemble recognises a value put back together from its own bytes, (zext(x[15:8]) << 8) | zext(x[7:0]),
+// which is what a big-endian Put followed by a big-endian read produces, and returns x.
+func reassemble(t *Term) *Term {
+	w := t.W()
+	type piece struct{ lo, hi int }
+	var src *Term
+	var ps []piece
+	ok := true
+	var walk func(x *Term, shift int)
+	walk = func(x *Term, shift int) {
+		if !ok {
+			return
+		}
+		switch {
+		case x.Op == "bvor":
+			walk(x.Args[0], shift)
+			walk(x.Args[1], shift)
+		case x.Op == "bvshl" && x.Args[1].C != nil && x.Args[1].C.IsInt64():
+			walk(x.Args[0], shift+int(x.Args[1].C.Int64()))
+		case strings.HasPrefix(x.Op, "(_ zero_extend"):
+			walk(x.Args[0], shift)
+		case strings.HasPrefix(x.Op, "(_ extract"):
+			var hi, lo int
+			fmt.Sscanf(x.Op, "(_ extract %d %d)", &hi, &lo)
+			if src == nil {
+				src = x.Args[0]
+			}
+			if x.Args[0] != src || lo != shift {
+				ok = false
+				return
+			}
+			ps = append(ps, piece{lo, hi})
+		default:
+			ok = false
+		}
+	}
+	walk(t, 0)
+	if !ok || src == nil || src.W() != w || len(ps) < 2 {
+		return nil
+	}
+	covered := make([]bool, w)
+	for _, p := range ps {
+		for i := p.lo; i <= p.hi && i < w; i++ {
+			if covered[i] {
+				return nil
+			}
+			covered[i] = true
+		}
+	}
+	for _, c := range covered {
+		if !c {
+			return nil
+		}
+	}
+	return src
 }
 
 func BVNot(a *Term) *Term {
@@ -513,6 +576,10 @@ func BVToInt(a *Term, signed bool) *Term {
 	}
 	if strings.HasPrefix(a.Op, "(_ zero_extend") && signed {
 		return BVToInt(a.Args[0], false)
+	}
+	if !signed && strings.HasPrefix(a.Op, "(_ int2bv") {
+		// bv2nat(int2bv_w(x)) == x mod 2^w
+		return IntModFloor(a.Args[0], IntConst(new(big.Int).Lsh(big.NewInt(1), uint(a.W()))))
 	}
 	if !signed && a.W() <= 32 {
 		if t := lowerBVToInt(a, 3); t != nil {
